@@ -59,6 +59,14 @@ SCOPES = {
         fmts=["c4", "md5", "sha1", "xxh64"], files=[P("a")], dirs=[], init={P("a"): "c1"}, contents=["c1", "c2"],
         roots=[P()], fmtchoices="all", pats=[()], sf=[], ops=["alter", "create"], maxgens=3, maxops=5, keepsnap=False,
     ),
+    # -sf naming two folders that hold files at the same relative sub-path, a folder together with a file inside the other
+    "sf2": dict(
+        fmts=["md5"], files=[P("a"), P("d", "s", "b"), P("e", "s", "b"), P("d", "k"), P("e", "k")], dirs=[P("d"), P("e"), P("d", "s"), P("e", "s")],
+        init={P("a"): "c1", P("d"): "DIR", P("d", "s"): "DIR", P("d", "s", "b"): "c2", P("d", "k"): "c1", P("e"): "DIR", P("e", "s"): "DIR", P("e", "s", "b"): "c3", P("e", "k"): "c2"},
+        contents=["c1", "c2", "c3"], roots=[P()], fmtchoices=[["md5"]], pats=[()],
+        sf=[frozenset({P("d"), P("e")}), frozenset({P("d"), P("e", "s", "b")}), frozenset({P("d", "s"), P("e", "s")}), frozenset({P("d", "k"), P("e", "k")})],
+        ops=["alter", "create", "createsf", "verify"], maxgens=3, maxops=4, keepsnap=False, mutable=[P("e", "s", "b"), P("d", "k")],
+    ),
     # a small tree: files at two levels, an empty directory; create / verify / diff and all mutations
     "tree": dict(
         fmts=["md5", "xxh64"], files=[P("a"), P("d", "b"), P("d", "n")], dirs=[P("d"), P("e")],
@@ -248,7 +256,7 @@ SCOPES = {
         dirs=[P("d"), P("e"), P("g"), P("g", "e")],
         init={P("a"): "c1", P("d"): "DIR", P("d", "b"): "c2", P("d", "c"): "c3", P("g"): "DIR"}, contents=["c1", "c2", "c3"],
         roots=[P()], fmtchoices=[["md5"]], pats=[()], sf=[],
-        ops=["rename", "renamedir", "create", "verify", "diff", "dr"], maxgens=4, maxops=6, keepsnap=True,
+        ops=["rename", "renamedir", "create", "verify", "diff", "dr", "nodh"], maxgens=4, maxops=6, keepsnap=True,
         mutable=[P("a"), P("a2"), P("d"), P("e"), P("g", "e")], init_creates=[P()],
     ),
     # a rename recorded by the root history while a nested history holds a file with the same relative path as the new name
